@@ -178,6 +178,45 @@ def run(chk: lib.Check):
                         chk.violation(f"{what}-raises:{type(ex).__name__}", f"{what} of diagram {d.name!r} ({d.uuid}) raised {ex!r}",
                                       {"model": spec0["name"], "diagram": d.uuid, "what": what})
                 base = guard(model, base, f"introspecting diagram {d.name!r}", f"render-writes:{d.uuid}", {"model": spec0["name"], "diagram": d.uuid, "group": "diagram-introspection"})
+            # ---------------- group 4b: rendering with render parameters, and with every known diagram filter activated.  Activating a
+            # filter IS an edit (it is stored in the layout file), so the baseline is taken again after it; rendering — with and without
+            # parameters — must then leave that state alone
+            from capellambse.aird import _filters as aird_filters
+            try:
+                known_filters = sorted(aird_filters.GLOBAL_FILTERS)
+            except Exception:  # noqa: BLE001
+                known_filters = []
+            param_sets = [{"sorted_exchangedItems": True}, {"sorted_exchangedItems": False}, {"sorted_exchangedItems": True, "hide_context": True}]
+            for d in diags[: (12 if quick else len(diags))]:
+                for prm in param_sets[: 1 if quick and order else 3]:
+                    try:
+                        d.render("svg", **prm)
+                        stats["render-with-parameters"] += 1
+                    except Exception as ex:  # noqa: BLE001
+                        stats[f"render-with-parameters-raises:{type(ex).__name__}"] += 1
+                    base = guard(model, base, f"rendering diagram {d.name!r} with parameters {prm}", f"render-params-write:{sorted(prm)}",
+                                 {"model": spec0["name"], "group": "render-params", "diagram": d.uuid, "params": prm})
+            model_f = corpus.load(spec0)        # the activation is an edit: it happens in a model of its own, not in the read-only session
+            for d in [model_f.diagrams.by_uuid(d_.uuid) for d_ in diags[: (8 if quick else len(diags))]]:
+                try:
+                    for f_ in known_filters:
+                        d.filters.add(f_)
+                    d.invalidate_cache()
+                    stats["diagrams-with-every-filter-activated"] += 1
+                except Exception as ex:  # noqa: BLE001
+                    stats[f"filter-activation-raises:{type(ex).__name__}"] += 1
+                    continue
+                base_f = fingerprint(model_f)
+                for prm in ({}, {"sorted_exchangedItems": True}):
+                    try:
+                        d.render("svg", **prm)
+                        stats["render-with-filters-activated"] += 1
+                    except Exception as ex:  # noqa: BLE001
+                        stats[f"render-with-filters-raises:{type(ex).__name__}"] += 1
+                    chk.note_case((spec0["name"], order, "render-filters", d.uuid, str(prm)), nontrivial=True)
+                    base_f = guard(model_f, base_f, f"rendering diagram {d.name!r} with all filters activated and parameters {prm}", f"render-filters-write:{sorted(prm)}",
+                                   {"model": spec0["name"], "group": "render-filters", "diagram": d.uuid, "params": prm, "filters": known_filters})
+            del model_f
             for what, fn in (("diagrams-repr", lambda: repr(model.diagrams)), ("diagrams-html", lambda: model.diagrams._repr_html_()), ("model-repr", lambda: repr(model)),
                              ("model-info", lambda: model.info)):
                 try:
